@@ -82,9 +82,14 @@ def decode_path(ctx, repo, cname, fname, reset_required):
     statp = repo.fold(ast.parse("STATP_VERB", mode="eval").body, fi.mod)
     # the STATQ branch: test `received_bytes.startswith(STATQ_VERB)`
     appends = [(n, c) for n, c in calls_named(g, "append") if receiver(c) == "self.changes"]
-    ctx.ob("R1", f"{key}::append-site", len(appends) == 1, f"{fi.qual}: expected one append to self.changes, found {len(appends)}", fi.loc)
     if len(appends) != 1:
+        # the records are collected some other way (a bound `append`, a generator, a helper): which changes a message
+        # yields, in which order, and that nothing of an earlier message is replayed is decided by interpretation -
+        # the concrete STATP decodes below and the message-sequence model (R9)
+        ctx.note(f"{fi.qual}: {len(appends)} `self.changes.append` site(s) - decode path decided by the interpreted decodes and the message-sequence model only")
+        statp_decodes_in_wire_order(ctx, repo, cname, fname)
         return
+    ctx.ob("R1", f"{key}::append-site", True, "")
     A, ac = appends[0]
     facts = g.guard_atoms(A)
     on_statp = any((not p) and "startswith(STATQ_VERB)" in t for t, p in facts)
